@@ -896,6 +896,16 @@ class DDLGen:
                             else "CREATE CONSTRAINT expression ON (true);")
             else:
                 subs.append('CREATE LINK bad -> NoSuchType;')       # fails part-way
+        if any('EXTENDING' in x for x in subs):
+            # after a rebase the type may inherit a pointer of a name it just dropped / renamed
+            for key in [k for k, e in self.exp.items() if e[0] == 'noptr']:
+                del self.exp[key]
+        else:
+            inherited = set()
+            for b in d['bases']:
+                inherited |= set(self.all_props(b)) | set(self.types.get(b, {}).get('links', {}))
+            for key in [k for k, e in self.exp.items() if e[0] == 'noptr' and e[2] in inherited]:
+                del self.exp[key]
         if not subs:
             subs = self.body_create(t, d, limit=1) or ['CREATE PROPERTY p9 -> str;']
         return f'ALTER TYPE {t} {{ ' + ' '.join(subs) + ' };'
@@ -1404,13 +1414,16 @@ def coq_case(case):
 
 
 def known_for(known, tags):
-    """the known finding that accounts for ALL failed monitors of a case (site = prefix of the
-    monitor names), else None"""
-    for k in known:
-        site = k.get('site')
-        if site and tags and all(t.startswith(site) for t in tags):
-            return k
-    return None
+    """the known findings that together account for ALL failed monitors of a case (site = prefix
+    of the monitor name); None if some failed monitor is not accounted for"""
+    out = []
+    for t in tags:
+        k = next((k for k in known if k.get('site') and t.startswith(k['site'])), None)
+        if k is None:
+            return None
+        if k not in out:
+            out.append(k)
+    return out or None
 
 
 def gen_names(tier):
@@ -1505,7 +1518,8 @@ def run(tier):
         tags = mon_tags(nm_res[i])
         kf = known_for(known, tags)
         if kf:
-            rep.known_finding(kf['id'], kf.get('what', ''))
+            for k_ in kf:
+                rep.known_finding(k_['id'], k_.get('what', ''))
             continue
         if tags[0] in seen_tags or reported >= 2:
             continue
@@ -1528,7 +1542,8 @@ def run(tier):
         tags = mon_tags(impl[i])
         kf = known_for(known, tags)
         if kf:
-            rep.known_finding(kf['id'], kf.get('what', ''))
+            for k_ in kf:
+                rep.known_finding(k_['id'], k_.get('what', ''))
             continue
         if tags[0] in seen_tags:
             continue
@@ -1550,7 +1565,8 @@ def run(tier):
         tags = mon_tags(ddl_res[i])
         kf = known_for(known, tags)
         if kf:
-            rep.known_finding(kf['id'], kf.get('what', ''))
+            for k_ in kf:
+                rep.known_finding(k_['id'], k_.get('what', ''))
             continue
         if tags[0] in seen_tags or nrep >= 2:
             continue
